@@ -4469,6 +4469,11 @@ class Generator:
                     )
                 )
 
+        if isinstance(expression.left, exp.Div):
+            # binary() writes a chain of divisions in one go, so the nested division would not get here
+            op = self.maybe_comment("/", comments=expression.comments)
+            return f"{self.sql(expression, 'this')} {op} {self.sql(expression, 'expression')}"
+
         return self.binary(expression, "/")
 
     def safedivide_sql(self, expression: exp.SafeDivide) -> str:
